@@ -247,12 +247,13 @@ func genBoot(t *rapid.T) bootCase {
 	}
 	c.N = rapid.IntRange(1, pbt.Scale(6, 12)).Draw(t, "n")
 	c.Seed = genSeed(t)
-	c.Model = rapid.SampledFrom([]string{"jc", "k2p", "pdist", "f81", "tn93", "f84"}).Draw(t, "model")
+	// k2p is the default model of both commands: drawn more often
+	c.Model = rapid.SampledFrom([]string{"k2p", "k2p", "k2p", "jc", "pdist", "f81", "tn93", "f84"}).Draw(t, "model")
 	if c.Protein {
 		// the equivalence is stated for "distance matrices", not for nucleotide models only
 		c.Model = rapid.SampledFrom([]string{"lg", "wag", "jtt", "dayoff", "mtrev", "hivb"}).Draw(t, "aamodel")
 	}
-	c.RmGaps = rapid.Bool().Draw(t, "rmgaps")
+	c.RmGaps = rapid.IntRange(0, 2).Draw(t, "rmgaps") != 0
 	c.Alpha = rapid.SampledFrom([]string{"", "", "0.5", "1", "2.5"}).Draw(t, "alpha")
 	c.Frac = rapid.SampledFrom([]string{"", "", "0.5", "0.9"}).Draw(t, "frac")
 	c.Gz = rapid.Bool().Draw(t, "gz")
